@@ -200,7 +200,7 @@ def run_case(desc):
 
 @st.composite
 def arith_cases(draw, mode, max_dims=3, max_len=2, forms=("binary", "binary", "binary", "number", "unary")):
-    U = draw(gen.universes(min_dims=1, max_dims=max_dims, max_len=max_len))
+    U = draw(gen.universes(min_dims=1, max_dims=max_dims, max_len=max_len, long_dim=8 if mode in ("coded", "int") else 0))
     form = draw(st.sampled_from(list(forms)))
     elems_x = None
     # object-dtype storage (symbols, Fractions) cannot represent 0-d arrays faithfully: numpy hands
